@@ -62,6 +62,11 @@ def plan(tier, seed):
             for pi in range(parts):
                 shards.append({"kind": "faults", "task": t, "variant": v, "part": pi,
                                "parts": parts, "cases": [v]})
+    # tdms2rtdc of a directory tree (nine measurements in one call)
+    parts = 4 if tier == "quick" else 8
+    for pi in range(parts):
+        shards.append({"kind": "faults", "task": "tdms2rtdc", "variant": 4, "part": pi,
+                       "parts": parts, "cases": [4]})
     for t in TASKS:
         shards.append({"kind": "trace", "task": t, "variant": 0, "cases": [0]})
     return shards
@@ -85,7 +90,18 @@ def make_inputs(task, variant, rng, d):
         m["meta"]["user"] = {"count": 4, "ratio": 0.25, "window": np.array([0.0, 100.5]),
                              "flag": True, "note": "user note"}
         return m
-    if task == "tdms2rtdc":
+    if task == "tdms2rtdc" and variant == 4:
+        # a directory tree with nine measurements, converted in one call
+        from vmon.work.c02 import tdms_fixture
+        src = tdms_fixture("fmt-tdms_minimal_2016.zip")
+        for k in range(9):
+            shutil.copytree(src.parent, d / "tdms" / f"data_{k}")
+        info["inputs"] = [str(p) for p in sorted((d / "tdms").rglob("*")) if p.is_file()]
+        info["tdms"] = str(d / "tdms")
+        info["tdms_out_dir"] = str(d / "out")
+        info["outputs"] = [str(d / "out" / f"data_{k}" / (src.stem + ".rtdc")) for k in range(9)]
+        info["stale"] = False
+    elif task == "tdms2rtdc":
         from vmon.work.c02 import tdms_fixture
         name = ["fmt-tdms_minimal_2016.zip", "fmt-tdms_2fl-no-image_2017.zip",
                 "fmt-tdms_fl-image_2016.zip", "fmt-tdms_shapein-2.0.1-no-image_2017.zip"][variant]
@@ -182,7 +198,8 @@ def task_callable(task, info, variant):
         elif task == "tdms2rtdc":
             import pathlib
             cli.tdms2rtdc(path_tdms=pathlib.Path(info["tdms"]),
-                          path_rtdc=pathlib.Path(info["outputs"][0]), verbose=False)
+                          path_rtdc=pathlib.Path(info.get("tdms_out_dir", info["outputs"][0])),
+                          verbose=False)
     return run
 
 
@@ -205,6 +222,12 @@ def place_stale(info):
     return stale
 
 
+def _ref_name(info, o):
+    """Name of the reference copy of output o (outputs in different directories may share
+    their base name)."""
+    return f"{info['outputs'].index(o)}_{os.path.basename(o)}"
+
+
 def clear_outputs(info, d):
     for o in info["outputs"]:
         for p in (o, o + "~"):
@@ -223,7 +246,7 @@ def verify(info, ref_dir, in_sha, stale):
             continue
         if stale.get(o) == sha(o):
             continue        # the old file, untouched
-        ref = os.path.join(ref_dir, os.path.basename(o))
+        ref = os.path.join(ref_dir, _ref_name(info, o))
         try:
             with dclab.new_dataset(o) as ds:
                 len(ds)
@@ -285,7 +308,7 @@ def run_faults(spec, ctx):
     ref_dir.mkdir()
     for o in info["outputs"]:
         if os.path.exists(o):
-            os.rename(o, ref_dir / os.path.basename(o))
+            os.rename(o, ref_dir / _ref_name(info, o))
         else:
             ctx.violation("c10.reference_run", {"task": task, "missing_output": o},
                           message="fault-free run did not produce a requested output")
@@ -293,7 +316,11 @@ def run_faults(spec, ctx):
     ctx.count(f"operations[{task}]", nops)
     for name in set(ops):
         ctx.count(f"op[{name}]", ops.count(name))
-    if ctx.tier == "quick":
+    if task == "tdms2rtdc" and variant == 4:
+        # (nine conversions per run, seconds each: about 12 / 72 failpoints spread evenly)
+        step = max(1, nops // (12 if ctx.tier == "quick" else 72))
+        ks = sorted(set(list(range(2, nops + 1, step)) + [1, nops]))
+    elif ctx.tier == "quick":
         ks = sorted(set(list(range(1, nops + 1, 6)) + list(range(1, 7))
                         + list(range(max(1, nops - 7), nops + 1))))
     elif task == "tdms2rtdc" and nops > 400:
